@@ -3,6 +3,7 @@ package sim
 import (
 	"bytes"
 	"crypto"
+	"crypto/sha256"
 	"encoding/json"
 	"fmt"
 	"io"
@@ -28,6 +29,9 @@ type scCfg struct {
 	Mode    string  `json:"mode"`         // seq | inter | free
 	Clients int     `json:"clients"`
 	Instant string  `json:"instant"`
+	// Cold: the object under test is not used before the clients start: their first calls are the first calls on it
+	// (whatever is initialised lazily is initialised under the schedule). The snapshot is taken afterwards.
+	Cold bool `json:"cold,omitempty"`
 }
 
 type scOp struct {
@@ -109,20 +113,22 @@ func (e *schedEngine) Gen(seed uint64, tier string, run int) *Trace {
 		}
 		kinds = scImageOps
 	case "db":
-		c.DB = r.Intn(5) // 3, 4: with a list that the caller assembled by hand around a PEM encoded certificate
+		c.DB = r.Intn(7) // 3, 4: with a list that the caller assembled by hand around a PEM encoded certificate; 5, 6: long lists
 		kinds = scDBOps
 	case "dbdecoded":
 		c.DB = r.Intn(3)
 		kinds = scDBOps
 	case "pkcs7":
-		c.Signers = []int{Pick(r, []int{0, 1, 8})}
+		c.Signers = []int{Pick(r, []int{0, 1, 8, 21, 22})}
+		c.DB = r.Intn(4) // > 0: the SignedData comes from another signer, with that many extra authenticated attributes
 		kinds = scPkcs7Ops
 	case "authcode":
 		c.Image = ImgSpec{Gen: genPESpec(r.Fork("img"))}
-		c.Signers = []int{Pick(r, []int{0, 1, 9})}
+		c.Signers = []int{Pick(r, []int{0, 1, 9, 23})}
+		c.DB = r.Intn(4)
 		kinds = scAuthcodeOps
 	case "list":
-		c.DB = r.Intn(3)
+		c.DB = Pick(r, []int{0, 1, 2, 17, 40}) // up to 3+DB entries
 		kinds = scListOps
 	case "update":
 		c.Signers = []int{Pick(r, []int{0, 1, 0, 1, 8, 12})}
@@ -133,6 +139,7 @@ func (e *schedEngine) Gen(seed uint64, tier string, run int) *Trace {
 	if c.Mode != "seq" {
 		c.Clients = Pick(r, []int{2, 2, 3, 4, 8, 16})
 	}
+	c.Cold = c.Mode == "inter" && r.Chance(1, 3)
 	// swarm: a subset of the operation kinds per run
 	var enabled []string
 	for _, k := range kinds {
@@ -322,7 +329,16 @@ func (e *schedEngine) build(c scCfg, x *X, plane *Plane) (mk func() *scObject) {
 				add(1, 2, 8)
 				add(0, 0, 3)
 			}
-			if c.DB >= 3 {
+			if c.DB >= 5 {
+				// long lists (an implementation may treat them differently from short ones)
+				for k := 0; k < 20*(c.DB-4); k++ {
+					h := sha256.Sum256([]byte(fmt.Sprint("long list entry ", k)))
+					if err := db.Append(dbTypes[0].G, dbOwners[k%3], h[:]); err != nil {
+						harnessf("sched: db setup: %v", err)
+					}
+				}
+			}
+			if c.DB == 3 || c.DB == 4 {
 				// a list assembled by hand (struct literal + AppendList), holding the certificate in the form the caller had: PEM
 				pemData := append([]byte(nil), dbData(9+c.DB-3)...)
 				hand := &signature.SignatureList{SignatureType: dbTypes[1].G, ListSize: uint32(28 + 16 + len(pemData)), HeaderSize: 0, Size: uint32(16 + len(pemData)),
@@ -413,7 +429,12 @@ func (e *schedEngine) build(c scCfg, x *X, plane *Plane) (mk func() *scObject) {
 		return func() *scObject {
 			l := signature.NewSignatureList(dbTypes[0].G)
 			for i := 0; i < 3+c.DB; i++ {
-				if err := l.AppendBytes(dbOwners[i%3], dbData(i%4)); err != nil && i < 4 {
+				d := dbData(i % 4)
+				if i >= 4 {
+					h := sha256.Sum256([]byte(fmt.Sprint("list entry ", i)))
+					d = h[:]
+				}
+				if err := l.AppendBytes(dbOwners[i%3], d); err != nil && i < 4 {
 					harnessf("sched: list setup: %v", err)
 				}
 			}
@@ -461,6 +482,14 @@ func (e *schedEngine) build(c scCfg, x *X, plane *Plane) (mk func() *scObject) {
 			}
 		}); pv != nil {
 			panic(pv)
+		}
+		if c.DB > 0 {
+			// the same content signed the way another tool signs it: extra authenticated attributes behind the usual three
+			like, err := refCMSParse(blob)
+			if err != nil {
+				harnessf("sched: reference parse of the library's own SignedData: %v", err)
+			}
+			blob = refCMSForeign(like, []byte("content signed once, verified many times"), pk, at.UTC(), refForeignAttrs(c.DB%4))
 		}
 		if c.Object == "pkcs7" {
 			return func() *scObject {
@@ -642,7 +671,7 @@ func (e *schedEngine) Exec(tr *Trace, x *X) {
 		}
 		return true
 	}
-	if c.Mode != "free" {
+	if c.Mode != "free" && !c.Cold {
 		if !warm() {
 			return
 		}
@@ -733,6 +762,17 @@ func (e *schedEngine) Exec(tr *Trace, x *X) {
 		}
 		for i := range ops {
 			if !judge(i) {
+				return
+			}
+		}
+		if c.Cold {
+			// the clients' calls were the first ones on this object: it is in its used state now, and one more round must leave it as it is
+			x.Probe("cold_object")
+			if !warm() {
+				return
+			}
+			snap0 = deepDump(obj.dumpRoot)
+			if !warm() {
 				return
 			}
 		}
